@@ -133,7 +133,7 @@ func dedup(xs []string) []string {
 }
 
 func shortType(t types.Type) string {
-	return types.TypeString(t, func(p *types.Package) string { return p.Name() })
+	return strings.ReplaceAll(types.TypeString(t, func(p *types.Package) string { return p.Name() }), ", ", ",")
 }
 
 // typeArgsOf returns the names of the type arguments of a named instance.
